@@ -109,6 +109,20 @@ class Index:
     def __len__(self):
         return len(self._l)
 
+    def __getitem__(self, i):
+        # pandas.Index positional access (integers, negative from the end; IndexError outside)
+        if isinstance(i, slice):
+            return Index(self._l[i])
+        if hasattr(i, "pick"):  # symbolic integer of the IEEE search: fork over the valid positions
+            k = i.pick(-len(self._l), len(self._l) - 1)
+            if k is None:
+                raise IndexError("index out of bounds")
+            return self._l[k]
+        return self._l[i.__index__()]
+
+    def __iter__(self):
+        return iter(self._l)
+
 
 class _Coords:
     def __init__(self, arr):
